@@ -31,6 +31,7 @@ var gridNames = map[string]func() []group{
 	"grid-underany":  gridUnderAny,
 	"grid-datetime":  gridDatetime,
 	"grid-regex":     gridRegex,
+	"grid-interact":  gridInteract,
 }
 
 func isGrid(name string) bool { _, ok := gridNames[name]; return ok }
@@ -562,6 +563,87 @@ func gridRegex() []group {
 				t += " flag " + quoteStr(f)
 			}
 			gs = append(gs, group{"$[*] ? (@ " + t + ")", subjects, nil}, group{"strict $[*] ? (!(@ " + t + "))", subjects, nil}, group{"$[0] " + t, []any{subjects[len(p)%len(subjects)]}, nil})
+		}
+	}
+	return gs
+}
+
+// gridInteract: two features that are each fine alone. (1) lookup tables: an operand or a whole
+// filter condition that is anchored at `$` or a variable but depends on the current item through a
+// subscript (`$.lim[@.i]`), over several items whose subscripts differ — what a memo keyed by node
+// or an "invariant operand" analysis gets wrong; (2) hard errors raised inside subscripts and
+// after the first item, under every kind of suppression and through every entry point;
+// (3) consecutive filters over nested arrays (each filter unwraps again in lax mode);
+// (4) operand sequences in which arrays follow each other.
+func gridInteract() []group {
+	doc := map[string]any{
+		"items": []any{
+			map[string]any{"i": float64(0), "v": float64(10), "q": float64(2), "s": "alpha"},
+			map[string]any{"i": float64(2), "v": float64(20), "q": float64(1), "s": "cat"},
+			map[string]any{"i": float64(1), "v": float64(99), "q": float64(2), "s": "beta"},
+			map[string]any{"i": float64(1), "v": float64(20), "q": float64(4), "s": "b"},
+		},
+		"lim": []any{float64(10), float64(20), float64(30)}, "w": []any{float64(10), float64(20), float64(30)},
+		"z": []any{float64(5), float64(0), float64(2.5)}, "names": []any{"a", "b", "c"},
+	}
+	vars := map[string]any{"lim": []any{float64(10), float64(20), float64(30)}, "names": []any{"a", "b", "c"}, "one": float64(1)}
+	var gs []group
+	add := func(t string, d any, v map[string]any) {
+		gs = append(gs, group{t, d, v}, group{"strict " + t, d, v})
+	}
+	for _, op := range []string{"==", "!=", "<", "<=", ">", ">="} {
+		for _, t := range []string{"@.v %s $.lim[@.i]", "$.lim[@.i] %s @.v", "@.v %s $lim[@.i]", "$lim[@.i] %s @.v", "@.v %s $.lim[@.i to @.i + 1]",
+			"$.w[@.i] * @.q %s 40", "@.q * $.w[@.i] %s 40", "$.w[@.i] + 0 %s $.w[@.i]", "100 / $.z[@.i] %s 30", "7 %% $.z[@.i] %s 1", "$.lim[@.i] %s $.w[@.i]",
+			"$.lim[last - @.i] %s @.v", "$.lim[@.i].double() %s @.v", "$.items[@.i].v %s @.v", "$.lim[$.items[@.i].i] %s 20"} {
+			c := fmt.Sprintf(t, op)
+			add("$.items[*] ? ("+c+")", doc, vars)
+			add("$.items[*] ? (!("+c+")).i", doc, vars)
+			add("$.items[1 to last] ? ("+c+" && @.q > 1)", doc, vars)
+		}
+	}
+	for _, c := range []string{"@.s starts with $.names[@.i]", "@.s starts with $names[@.i]", "$.names[@.i] like_regex \"c\"", "$.names[@.i] == \"c\"", "exists($.lim[@.i] ? (@ > 15))",
+		"exists($.lim[@.i to last] ? (@ == 30))", "($.lim[@.i] > 15) is unknown", "$.names[@.i] == \"b\" || @.v == 10", "$.lim[@.i].type() == \"number\"", "$.z[@.i] == 0"} {
+		add("$.items[*] ? ("+c+")", doc, vars)
+		add("$.items[*] ? ("+c+").v", doc, vars)
+	}
+	add("$[*] ? ($[@] == 1)", []any{float64(1), float64(0)}, nil)
+	add("$[*] ? ($[@] > @)", []any{float64(2), float64(0), float64(1)}, nil)
+	// (2) hard errors inside subscripts / after the first item
+	arr := []any{float64(1), float64(2), float64(3)}
+	objs := []any{map[string]any{"v": []any{float64(1), float64(2)}}, map[string]any{"v": []any{float64(5)}}}
+	dts := []any{"2020-01-01 10:00:00+00", "2020-01-01 10:00:00", "2020-01-02 10:00:00+01"}
+	for _, t := range []string{"$[$undef]", "$[0, $undef]", "$[0, $undef to last]", "$[$undef to 1]", "$[0 to $undef]", "$[*] ? (@ == 1 || @ > $undef)", "$[*] ? (@ > 1 && @ > $undef)",
+		"$[0, \"a\".datetime(\"HH24\")]", "$[0, 1.decimal(0)]", "$[*] ? (@ == $[$undef])", "exists($[$undef])", "$[$undef] == 1", "($[$undef] == 1) is unknown", "$[0, last ? (@ > $undef)]"} {
+		add(t, arr, nil)
+	}
+	for _, t := range []string{"$[*] ? (@.v[$undef] > 1)", "$[*].v[$undef]", "$[*].v[0, $undef]", "$[*] ? (exists(@.v[$undef]))", "$[*] ? ((@.v[$undef] > 1) is unknown)", "$[*].v[last - $undef]"} {
+		add(t, objs, nil)
+	}
+	for _, t := range []string{"$[*].timestamp_tz()", "$[*].timestamp_tz().string()", "$[*] ? (@.timestamp_tz() > \"2020-01-01 00:00:00+00\".timestamp_tz())", "$[0 to 1].timestamp_tz()", "$[*].datetime() ? (@ < \"2021-01-01\".date())",
+		"$[*].time_tz()", "$[1, 0].timestamp_tz()"} {
+		add(t, dts, nil)
+	}
+	// (3) consecutive filters over nested arrays
+	nested := []any{[]any{[]any{float64(1), float64(5)}, []any{float64(7)}}, []any{float64(1), []any{float64(2), float64(3)}, []any{}}, map[string]any{"a": []any{[]any{float64(1), float64(5)}, float64(3)}},
+		[]any{[]any{float64(1), float64(2)}}, []any{map[string]any{"a": float64(1)}, []any{map[string]any{"a": float64(2)}}}}
+	filters := []string{"? (@.size() > 1)", "? (@ > 2)", "? (@.type() == \"array\")", "? (@.type() == \"number\")", "? (@[*] > 1)", "? (exists(@[0]))", "? (@.a > 0)", "? (@ == @)"}
+	for _, d := range nested {
+		for _, f1 := range filters {
+			for _, f2 := range filters {
+				for _, pre := range []string{"$", "$[*]", "$.a", "$.*"} {
+					add(pre+" "+f1+" "+f2, d, nil)
+				}
+			}
+			add("$ "+f1+" ? (@ > 0) ? (@ < 6)", d, nil)
+		}
+	}
+	// (4) operand sequences in which arrays follow each other
+	seqs := []any{[]any{[]any{float64(1)}, []any{float64(2)}}, []any{[]any{}, []any{float64(2)}}, []any{[]any{float64(1)}, []any{}, []any{float64(2)}}, []any{float64(3), []any{float64(1), float64(2)}},
+		[]any{[]any{float64(1), float64(2)}, float64(3)}, map[string]any{"a": []any{"w"}, "b": []any{"x"}}, []any{[]any{"ab"}, []any{"b"}}, []any{[]any{[]any{float64(2)}}, []any{float64(2)}}}
+	for _, d := range seqs {
+		for _, t := range []string{"$[*] == 2", "2 == $[*]", "$[*] < 3", "$.* == \"x\"", "$[*] starts with \"b\"", "$[*] like_regex \"^b\"", "$[*] == $[*]", "-$[*]", "$[*] + 1", "($[*] == 2) is unknown",
+			"$ ? (@[*] == 2)", "$[*] ? (@ == 2)", "$.*[*] == \"x\"", "$[*][*] == 2"} {
+			add(t, d, nil)
 		}
 	}
 	return gs
